@@ -18,7 +18,7 @@ PROPS["C19"] = dict(
          "distinct = distinct (ISN, boundaries, order, delivery pattern[, variant]); non-trivial = every history has >=1 segment, the tracker state + queries are checked in the initial state and after "
          "each delivered ACK packet; exhaustive phase: case index = arrival order (factoradic), all orders enumerated",
     floors=dict(
-        quick={"distinct": 100000, "acked_range:wrapping": 5000, "acked_range:plain": 20000, "exhaustive_orders": 720, "exhaustive_histories": 150000, "packets": 800000, "queries": 100000000,
+        quick={"distinct": 100000, "tracker:move-assigned": 500, "tracker:copy-assigned": 500, "acked_range:wrapping": 5000, "acked_range:plain": 20000, "exhaustive_orders": 720, "exhaustive_histories": 150000, "packets": 800000, "queries": 100000000,
                "checks:ack_number": 800000, "checks:acked_intervals": 800000,
                "br:ack-advance-erases-sacked": 50000, "br:ack-jumps-across-2^32": 10000, "br:ack-jumps-across-2^32-sacked-only-before": 1000,
                "br:ack-jumps-across-2^32-sacked-both-sides": 5000, "br:ack-jumps-across-2^31": 5000, "br:ack-lands-on-seq-0": 1000, "br:ack-lands-on-seq-2^32-1": 1000,
